@@ -358,7 +358,17 @@ def one_history(ctx, net, rng, idx):
                 t = og0.CONFIGURABLE.get(opt, str)
                 expected[opt] = int(raw) if t is int else (raw.lower() in ("true", "yes", "on", "1")) if t is bool else [x.strip() for x in raw.split(",")] if t is list else raw
     default_cuid = None
-    case = {"oracle": 2, "idx": idx, "nick": nick, "runs": runs, "fidb": dict(db.get(nick, {})) if existing else None}
+    preset = None
+    if rng.random() < 0.3:
+        # the user's file already holds a default CLIENTUID (left by runs for OTHER nicknames) and no section for this one: the
+        # default is in effect from the first run on, not only once the section exists
+        preset = f"PRESET-{rng.getrandbits(32):08X}"
+        path0 = cli.user_cfg_path()
+        path0.parent.mkdir(parents=True, exist_ok=True)
+        path0.write_text(f"[DEFAULT]\nclientuid = {preset}\n\n[someoneelse]\nurl = https://else.example/ofx\nuser = else\n")
+        default_cuid = preset
+        ctx.count("histories_with_preset_default_clientuid")
+    case = {"oracle": 2, "idx": idx, "nick": nick, "runs": runs, "fidb": dict(db.get(nick, {})) if existing else None, "preset_default_clientuid": preset}
     nruns = rng.randint(2, 5)
     if existing:
         ctx.count("histories_on_fidb_nicknames")
@@ -462,7 +472,7 @@ def one_history(ctx, net, rng, idx):
         for opt in PERSISTABLE:
             if opt == "ofxhome":
                 continue
-            if opt == "clientuid" and opt not in cliopts and r > 0 and default_cuid is not None and "clientuid" not in expected:
+            if opt == "clientuid" and opt not in cliopts and (r > 0 or preset) and default_cuid is not None and "clientuid" not in expected:
                 want = default_cuid
             else:
                 want = cliopts.get(opt, expected.get(opt, og.DEFAULTS[opt]))
